@@ -173,7 +173,15 @@ func classErr(op, name string, notExist bool) error {
 	return &fs.PathError{Op: op, Path: name, Err: fs.ErrPermission}
 }
 
+// maxOpens bounds the opens of one build: a build that does not detect a
+// cycle would otherwise end in a fatal stack overflow of the harness. The
+// panic is recovered by the caller and reported as a failure of the case.
+const maxOpens = 2000
+
 func (r *recFS) Open(name string) (fs.File, error) {
+	if len(r.opens) >= maxOpens {
+		panic("verif: more than 2000 calls of Open in one build (no termination)")
+	}
 	if sp := r.inject[name]; sp != nil && sp.Type == "openerr" {
 		r.opens = append(r.opens, openRec{name, false})
 		return nil, classErr("open", name, false)
